@@ -6,7 +6,7 @@
   correspondence harness `harness/c01` and by the regenerated facts of
   `Golib.Gen.C01` (see Golib/Props/C01Gen.lean).
 -/
-import Golib.Prim.Ops
+import Golib.Prim.Extra
 
 namespace C01
 open Prim
@@ -92,6 +92,53 @@ theorem array_too_long_rejected {α : Type} (enc : α → Bytes) (dec : P α) (x
 theorem program_prefix_fails (ops : List Op) (q s : Bytes) (h : ∀ op ∈ ops, WFOp op)
     (hs : s ≠ []) (hq : q ++ s = writeAll ops) : P.run (readAll ops) q = none :=
   P.prefix_fails (readAll ops) q s ops hs (by rw [hq]; exact program_roundtrip ops h)
+
+/-! ### the rest of the stream API (Golib.Prim.Extra) -/
+
+/-- `ReadUnsignedShort` / `ReadUnsignedInt` over a signed write return the two's-complement pattern -/
+theorem unsigned_read_of_signed_write (w : Nat) (v : Int) (r : Bytes) :
+    P.run (rdU w) (encI w v ++ r) = some (toU w v, r) := run_rdU_encI w v r
+
+/-- `ReadByte` followed by `ReadDecimalLen(b)` is `ReadDecimal` (the pack header relies on it) -/
+theorem decimal_two_step (bs : Bytes) :
+    P.run decDecimal bs = P.run (P.bind (rdU 1) (fun b => decDecimalLen b)) bs := decDecimal_two_step bs
+
+theorem int_bytes_limit_roundtrip (max : Nat) (bs r : Bytes) (h : bs.length ≤ max) (hm : max < 2147483648) :
+    P.run (decBytes32Limit max) (encBytes32 bs ++ r) = some (bs, r) := run_decBytes32Limit max bs r h hm
+
+theorem int_bytes_limit_rejects (max : Nat) (bs r : Bytes) (h : max < bs.length) (hl : bs.length < 2147483648) :
+    P.run (decBytes32Limit max) (encBytes32 bs ++ r) = none := decBytes32Limit_rejects max bs r h hl
+
+theorem decimal_array_roundtrip (xs : List Int) (r : Bytes) (hl : xs.length < 2147483648)
+    (h : ∀ x ∈ xs, inRange 8 x) : P.run decDecArr (encDecArr xs ++ r) = some (xs, r) :=
+  run_decDecArr xs r hl h
+
+theorem decimal_array_int_roundtrip (xs : List Int) (r : Bytes) (hl : xs.length < 2147483648)
+    (h : ∀ x ∈ xs, inRange 4 x) : P.run decDecArrInt (encDecArr xs ++ r) = some (xs, r) :=
+  run_decDecArrInt xs r hl h
+
+/-- `WriteHeader` turns whatever was written into the int-length payload of a frame
+    `[src, ver] ++ be8 pcode ++ be8 licenseHash ++ be4 |payload| ++ payload`, and `Size()` is again the
+    number of bytes in the buffer -/
+theorem header_layout (w : Writer) (src ver : Nat) (pcode lic : Int) :
+    (w.header src ver pcode lic).buf =
+      writeAll [.byte src, .byte ver, .long pcode, .long lic, .intBytes w.buf] ∧
+    (w.header src ver pcode lic).written = (w.header src ver pcode lic).buf.length :=
+  Writer.header_spec w src ver pcode lic
+
+theorem secure_header_layout (w : Writer) (src ver : Nat) (pcode oid key : Int) :
+    (w.secureHeader src ver pcode oid key).buf =
+      writeAll [.byte src, .byte ver, .long pcode, .int oid, .int key, .intBytes w.buf] ∧
+    (w.secureHeader src ver pcode oid key).written = (w.secureHeader src ver pcode oid key).buf.length :=
+  Writer.secureHeader_spec w src ver pcode oid key
+
+theorem header_roundtrip (w : Writer) (src ver : Nat) (pcode lic : Int) (r : Bytes)
+    (hs : src < 256) (hv : ver < 256) (hp : inRange 8 pcode) (hl : inRange 8 lic)
+    (hb : w.buf.length < 2147483648) :
+    P.run (readAll [.byte 0, .byte 0, .long 0, .long 0, .intBytes []])
+      ((w.header src ver pcode lic).buf ++ r) =
+      some ([.byte src, .byte ver, .long pcode, .long lic, .intBytes w.buf], r) :=
+  Prim.header_roundtrip w src ver pcode lic r hs hv hp hl hb
 
 /-! non-vacuity: concrete non-trivial programs meet the hypotheses -/
 example : ∀ op ∈ [Op.decimal (-129), .blob [1, 2, 3], .shortArr [1, -2], .text []],
